@@ -125,14 +125,15 @@ def run(ctx):
     EPOCHOP_ = SEC + 'version_manager::EpochOp'
     # DROP TABLE: since the row-sets of a dropped table are retired inside commit_changes (arm of EpochOp::DropTable), the function
     # that retires them is the emitter of EpochOp::DropTable on the statement path (bootstrap only replays)
-    emitters = sorted({bd.root for bd in prog.bodies.values() if any(True for _ in bd.aggregates(EPOCHOP_, 'DeleteRowSet'))
-                       or (any(True for _ in bd.aggregates(EPOCHOP_, 'DropTable')) and not bd.root.endswith('::bootstrap'))})
+    # a helper that only one function calls is part of that function (`fn retire_ops(..)` split off compact_table)
+    emitters = sorted({prog.owner_root(bd.root) for bd in prog.bodies.values() if any(True for _ in bd.aggregates(EPOCHOP_, 'DeleteRowSet'))
+                       or (any(True for _ in bd.aggregates(EPOCHOP_, 'DropTable')) and not prog.owner_root(bd.root).endswith('::bootstrap'))})
     ctx.floor(R6, len(emitters), 2, 'functions emitting EpochOp::DeleteRowSet / EpochOp::DropTable')
     for r in emitters:
         if r.endswith('Compactor::compact_table'):
             ctx.ob(R6, f'{r}·under-lock', True, 'compact_table: called only under the try_lock_for_compaction guard (C09-R2)')
             continue
-        grp = [g for g in prog.group(r)]
+        grp = [prog.inlined(g) for g in prog.group(r)]
         main = next((g for g in grp if any(True for _ in g.aggregates(EPOCHOP_, 'DeleteRowSet')) or any(True for _ in g.aggregates(EPOCHOP_, 'DropTable'))), None)
         locks = []
         for l in LOCKS:
@@ -152,7 +153,7 @@ def run(ctx):
                  'mutex that is created on the fly and not stored excludes nobody')
     TM = SEC + 'transaction_manager::TransactionManager::'
     tm = [b for b in prog.bodies.values() if b.name.startswith(TM)]
-    resolvers = {b.root for b in tm if any(re.search(r'hash_map::Entry::<.*>::or_insert', c.name or '') for g in prog.group(b.root) for c in g.calls)}
+    resolvers = {b.root for b in tm if any(re.search(r'(hash|btree)_map::Entry::<.*>::or_insert', c.name or '') for g in prog.group(b.root) for c in g.calls)}
     n_lock = 0
     for b in tm:
         locks = [c for c in b.calls if re.search(r'tokio::sync::Mutex::<T>::(lock_owned|try_lock_owned|lock|try_lock)$', c.fn or '')]
